@@ -85,20 +85,10 @@ impl Arbitrary for bool {
     }
 }
 
-impl<const N: usize> Arbitrary for [u8; N] {
+// Kani draws arrays element by element
+impl<T: Arbitrary, const N: usize> Arbitrary for [T; N] {
     fn any() -> Self {
-        let b = next_bytes(N);
-        b.try_into().unwrap()
-    }
-}
-impl<const N: usize> Arbitrary for [u16; N] {
-    fn any() -> Self {
-        let b = next_bytes(2 * N);
-        let mut out = [0u16; N];
-        for i in 0..N {
-            out[i] = u16::from_le_bytes([b[2 * i], b[2 * i + 1]]);
-        }
-        out
+        std::array::from_fn(|_| T::any())
     }
 }
 
